@@ -332,3 +332,4 @@ def run(eng: Engine, ck: Check):
     from . import defs as _d_act
     _d_act.active_connection_definition(eng, ck, 'R-C11-INIT', 'create_peer_connection re-uses a connection picked by this test')
     _d_act.obfuscation_reset_definition(eng, ck, 'R-C11-INIT', 'the connection create_peer_connection returns is usable: both ends agree on whether what follows the init message is obfuscated')
+    _d_act.waiters_are_fresh(eng, ck, 'R-C11-WAITERS', 'the address of the peer is awaited by each request on its own; one cancelled request must not end another')
